@@ -164,6 +164,21 @@ FuseClause(SA, SB, R, m) ==
          THEN "fuse-dep-wrong-statement"
     ELSE "OK"
 
+(***************************************************************************)
+(* FRAME.  "contains the first stream unchanged" and the very notion of a   *)
+(* function of two streams presuppose that a call leaves the statements it  *)
+(* was handed as they were: SA, SB are the operands as they stood before    *)
+(* the call, A1, B1 the same two lists looked at again after it.  This is   *)
+(* an observation of its own: a stream may be handed in twice (fused with   *)
+(* itself) or contain the statement objects of an earlier result, and then  *)
+(* a statement updated in place shows up in the other operand and in every  *)
+(* program that holds the object (C20_Heap model-checks exactly that).      *)
+(***************************************************************************)
+FrameClause(SA, SB, A1, B1) ==
+    IF ~StreamEq(A1, SA) THEN "first-input-modified"
+    ELSE IF ~StreamEq(B1, SB) THEN "second-input-modified"
+    ELSE "OK"
+
 \* constructive form used by the state machine (C20_Fusion): the map decides everything
 FreshMap(SA, SB, m) == DOMAIN m = Ids(SB) /\ Injective(m) /\ Range(m) \cap Ids(SA) = {}
 ApplyFuse(SA, SB, m) ==
